@@ -124,6 +124,7 @@ class Monitor:
         self.commit_list: list[CommitRec] = []
         self.unsound_at: dict[int, set[str]] = {}
         self.unsound_terms: dict[int, set[int]] = {}
+        self.oldterm_commit: set[int] = set()
         self.applied_at: dict[int, tuple] = {}
         self.n_applies = 0
         self.dirty = False
@@ -443,6 +444,8 @@ class Monitor:
         causes = self.unsound_at.get(k) if k is not None else None
         if causes:
             return "commit-counted-" + "+".join(sorted(causes))
+        if k is not None and k in self.oldterm_commit:
+            return "leader-committed-only-entries-of-earlier-terms"
         return "unexplained"
 
     # --------------------------------------------------------------- commits
@@ -464,6 +467,11 @@ class Monitor:
             return
         sh = self.shadow[i]
         ch = self.chains[i]
+        if st is LEADER and 0 < ci <= len(sh) and sh[ci - 1].term != term:
+            # a leader moved its commit point to an entry that is not of its own term
+            for k in range(old + 1, ci + 1):
+                if k not in self.committed:
+                    self.oldterm_commit.add(k)
         for k in range(old + 1, ci + 1):
             if k > len(sh):
                 break
